@@ -21,6 +21,10 @@ class Unsupported(Exception):
     pass
 
 
+class LoopCut(Exception):
+    """end of an arbitrary-iteration path of a loop verified by invariant"""
+
+
 class Infeasible(Exception):
     """raised when the current path condition is found contradictory"""
 
@@ -200,6 +204,7 @@ class Path(object):
         self.refs = {}            # z3 ref-term id -> container
         self.notes = []
         self.abstract = False
+        self.side_goals = []
 
 
 class PathResult(object):
@@ -215,6 +220,7 @@ class PathResult(object):
         self.notes = list(path.notes)
         self.abstract = path.abstract
         self.pc_ids = dict(path.pc_ids)
+        self.side_goals = list(path.side_goals)
 
 
 class Engine(object):
@@ -224,6 +230,7 @@ class Engine(object):
         self.src = source
         self.mods = source.mods or source.import_native()
         self.feas_timeout_ms = feas_timeout_ms
+        self.loop_invariants = {}  # (module, function name, line|"while") -> object with havoc(E, env), invariant(E, env)
         self.summaries = {}        # (class key, method name) -> callable(engine, obj, args, kwargs)
         self.func_summaries = {}   # (module, function name) -> callable(engine, args, kwargs)
         self.lower_hints = []
@@ -259,6 +266,8 @@ class Engine(object):
                 out.append(PathResult(self.path, "raise", e.exc))
             except Infeasible:
                 self.stats["infeasible_dropped"] += 1
+            except LoopCut:
+                out.append(PathResult(self.path, "loopcut", None))
             except Unsupported:
                 # an unsupported construct on an infeasible path is irrelevant
                 if self.feasible(self.path.pc, self.feas_timeout_ms * 20) is False:
@@ -486,7 +495,8 @@ class Engine(object):
             self.depth -= 1
             raise Unsupported("inline depth exceeded at %s (recursion needs a contract)" % getattr(node, "name", "?"))
         try:
-            env = {"__mod__": f.module, "__owner__": f.owner}
+            env = {"__mod__": f.module, "__owner__": f.owner, "__fn__": getattr(node, "name", None),
+                   "__locals__": _local_names(node)}
             if f.closure:
                 env["__closure__"] = f.closure
             a = node.args
@@ -574,6 +584,10 @@ class Engine(object):
             self.block(s.orelse, env)
 
     def s_While(self, s, env):
+        spec = self.loop_invariants.get((env.get("__mod__"), env.get("__fn__"), s.lineno)) or \
+            self.loop_invariants.get((env.get("__mod__"), env.get("__fn__"), "while"))
+        if spec is not None:
+            return self.while_with_invariant(s, env, spec)
         n = 0
         try:
             while self.truth(self.eval(s.test, env)):
@@ -603,6 +617,26 @@ class Engine(object):
                 self.block(s.orelse, env)
         except Break:
             pass
+
+    def while_with_invariant(self, s, env, spec):
+        """Hoare rule for a `while` loop with an inductive invariant given by the contract (DESIGN 4.3):
+        establish (side goal), havoc the loop-modified state, assume the invariant, run the body ONCE from that arbitrary
+        iteration: a `break`/false test leaves the loop with the invariant as the only knowledge; a completed body must
+        re-establish the invariant (side goal) and the path ends there (covered by induction).  Termination is not proved."""
+        self.path.side_goals.append(("loop.establish", spec.invariant(self, env)))
+        spec.havoc(self, env)
+        self.assume(spec.invariant(self, env))
+        if not self.truth(self.eval(s.test, env)):
+            self.block(s.orelse, env)
+            return
+        try:
+            self.block(s.body, env)
+        except Break:
+            return
+        except Continue:
+            pass
+        self.path.side_goals.append(("loop.preserve", spec.invariant(self, env)))
+        raise LoopCut()
 
     def iterate(self, it, node=None, env=None):
         """concrete finite sequence of the elements of `it` (rule R1); symbolic collections need a loop rule"""
@@ -798,6 +832,8 @@ class Engine(object):
             if n in scope:
                 return scope[n]
             scope = scope.get("__closure__")
+        if n in env.get("__locals__", ()):
+            raise PyRaise(ExcVal(UnboundLocalError, (n,)))      # a local that is not assigned on this path
         return self.global_name(env["__mod__"], n)
 
     def global_name(self, mod, n):
@@ -1089,6 +1125,22 @@ class _DictView(object):
         if self.kind == "values":
             return list(self.d.values())
         return [(k, v) for k, v in self.d.items()]
+
+
+_locals_cache = {}
+
+
+def _local_names(node):
+    k = id(node)
+    if k not in _locals_cache:
+        names = set()
+        body = node.body if isinstance(node.body, list) else [node.body]
+        for st in body:
+            for n in ast.walk(st):
+                if isinstance(n, ast.Name) and isinstance(n.ctx, ast.Store):
+                    names.add(n.id)
+        _locals_cache[k] = (node, frozenset(names))
+    return _locals_cache[k][1]
 
 
 def _load(t):
